@@ -64,7 +64,7 @@ def stationSpherical (lat lon alt : R) (st : List R) : List R :=
   toSpherical (toStation lat lon alt st)
 
 /-- the four station measures (`kind`: 0 Range, 1 Azimut, 2 Elevation, 3 Doppler); `npath = len(path)` -/
-def measure (kind : Nat) (npath : R) (lat lon alt : R) (st : List R) : R :=
+def stationMeasure (kind : Nat) (npath : R) (lat lon alt : R) (st : List R) : R :=
   let s := stationSpherical lat lon alt st
   let r := s.getD 0 0
   let th := s.getD 1 0
